@@ -28,13 +28,18 @@ package runner
 //@   loop over for#1: invariant held == old(held)
 //@   loop over for#1: invariant g.capacity >= 0 && acq(g.capacity) == g.capacity
 
+//   n_wake - wake-up calls (Cond.Signal / Cond.Broadcast) made by this goroutine
+//@ ghost n_wake int threadlocal = 0
+// Every slot given back is announced: a waiter that is not woken when capacity becomes available
+// sleeps forever (the safety half of "no lost wake-up").
 //@ func (*runner.gate).exit
 //@   requires g != nil
 //@   requires !holds(g.m)
 //@   requires haspermit: held >= 1
 //@   ensures  permit: held == old(held) - 1
 //@   ensures  unlocked: !holds(g.m)
-//@   modifies held
+//@   ensures  wakes-a-waiter: n_wake == old(n_wake) + 1
+//@   modifies held, n_wake
 
 //@ func runner.newGate
 //@   requires capacity >= 1
@@ -94,7 +99,8 @@ package runner
 //@   ensures  t.status >= old(t.status)
 //@   ensures  old(t.status) >= 2 ==> t.status == old(t.status)
 //@   ensures  claimed == old(claimed)
-//@   modifies holds(t.m)
+//@   ensures  wakes-the-waiters: n_wake == old(n_wake) + 1
+//@   modifies holds(t.m), n_wake
 
 //@ func (*runner.target).run
 //@   requires t != nil && r != nil && r.gate != nil
@@ -177,10 +183,12 @@ package runner
 //@   ensures  unpublished: pub == old(pub)
 //@   requires !pub[e.root]
 //@   ensures  len(result) == len(labels)
+//@   ensures  every-dependency-has-finished: forall j: int :: 0 <= j && j < len(targets) ==> ((result[j].Error != nil && istype(result[j].Error, "runner.CyclicDependencyError") && result[j].Target == nil) || (targets[j].status >= 2 && result[j].Error == targets[j].err && result[j].Target == targets[j].target))
 //@   modifies heap
 //@   loop over labels: invariant held == 0 && claimed == old(claimed) && len(targets) == len(labels)
 //@   loop over labels: invariant forall j: int :: 0 <= j && j <= rangeindex ==> (targets[j] != nil && targets[j].status >= 1)
-//@   loop over make(): invariant held == 0 && claimed == old(claimed)
+//@   loop over results: invariant held == 0 && claimed == old(claimed)
+//@   loop over results: invariant cycle-error-for-every-dependency: err != nil && istype(err, "runner.CyclicDependencyError") && len(results) == len(targets) && (forall j: int :: 0 <= j && j <= rangeindex ==> (results[j].Error == err && results[j].Target == nil))
 //@   loop over targets: invariant held == 0 && claimed == old(claimed)
 //@   loop over targets: invariant forall j: int :: 0 <= j && j < len(targets) ==> (targets[j] != nil && targets[j].status >= 1)
 //@   loop over targets: invariant len(results) == len(targets)
